@@ -5,96 +5,144 @@
    One initial state per case (= one seed + argument set, run in several
    processes).  Two total verdicts per case:
      part "a": W0..W4 on the model dumped by EVERY run (first clause broken, or "ok")
-     part "b": M0 (setup outcome), M1 (identical model), D1/D2 (identical answers
-               but for fresh seeds) of every run against run 1; H0/H1 are checks
-               of the harness's own tester (same history, keys derived from the
-               seeds actually received) and are reported as machinery failures.
+     part "b": M0 (setup outcome), M1 (identical model), then run k = 2..n is
+               stepped against run 1 through the recorded history, one TLC
+               state per request (D1/D2: identical answers but for fresh seeds).
+               H0/H1 are checks of the harness's own tester (same history in
+               every run, keys derived from the seeds actually received) and are
+               reported by the driver as machinery failures, not violations.
 
    JSON: {"cases": [{"id", "mandS": [..], "mandV": [..],
                      "runs": [{"setup": "ok"|"exc",
                                "m":  [{"s", "svcs": [{"id", "hasSf", "sf": [..]}]}],
-                               "tr": [{"q": [..], "k": "lit"|"key"|"bad", "o": "r"|"n"|"x", "r": [..]}]}]}]} *)
+                               "tr": [{"q": [..], "k": "new"|"lit"|"key"|"bad", "o": "r"|"n"|"x", "r": [..]}]}]}]}
+   A step of kind "new" is not a request: a NEW virtual ECU was started from the
+   same seed and arguments (in the same process) and r is a digest of the model
+   it offers; the steps up to the next "new" are its history.
+   Verdict lines: <<"V", id, part, label, run, step, unspecified>> *)
 EXTENDS VEcuModelContract, Json, IOUtils
 
 Batch == JsonDeserialize(IOEnv.TRACE_FILE)
 C == Batch.cases
 
-VARIABLES cid, done
-tvars == <<cid, done>>
+VARIABLES cid,   \* case
+          st,    \* "start" | "run" | "done"
+          k, i,  \* run k is being compared with run 1, next step i
+          sa, sb,\* seed bookkeeping of run 1 / run k (contract)
+          la, lb,\* latest seed shown to the tester of run 1 / run k (H1)
+          u      \* unspecified steps so far
+tvars == <<cid, st, k, i, sa, sb, la, lb, u>>
 
-Range(f) == { f[i] : i \in DOMAIN f }
+Range(f) == { f[j] : j \in DOMAIN f }
 MinOf(S) == CHOOSE x \in S : \A y \in S : x <= y
 
 ----------------------------------------------------------------------------
 \* dumped model -> abstract model of the contract
-SessOf(m)   == { m[i].s : i \in DOMAIN m }
+SessOf(m)   == { m[j].s : j \in DOMAIN m }
 SvcIds(e)   == { e.svcs[j].id : j \in DOMAIN e.svcs }
 SfOf(e, id) == UNION { Range(e.svcs[j].sf) : j \in { x \in DOMAIN e.svcs : e.svcs[x].id = id /\ e.svcs[x].hasSf } }
 Abstract(m) ==
   LET S == SessOf(m) IN
   [sess |-> S,
-   svc  |-> [s \in S |-> UNION { SvcIds(m[i]) : i \in { x \in DOMAIN m : m[x].s = s } }],
-   T    |-> UNION { { <<m[i].s, t>> : t \in (SfOf(m[i], 16) \cap S) } : i \in DOMAIN m },
-   B    |-> { <<m[i].s, DefaultSession>> : i \in { x \in DOMAIN m : SfOf(m[x], 17) # {} } }]
+   svc  |-> [s \in S |-> UNION { SvcIds(m[j]) : j \in { x \in DOMAIN m : m[x].s = s } }],
+   T    |-> UNION { { <<m[j].s, t>> : t \in (SfOf(m[j], 16) \cap S) } : j \in DOMAIN m },
+   B    |-> { <<m[j].s, DefaultSession>> : j \in { x \in DOMAIN m : SfOf(m[x], 17) # {} } }]
 
-\* "identical session/service/sub-function model": compared as sets (order of a dump is not part of the model)
-Canon(m) == UNION { { <<m[i].s, 0, FALSE, {}>> }
-                    \cup { <<m[i].s, m[i].svcs[j].id, m[i].svcs[j].hasSf, Range(m[i].svcs[j].sf)>> : j \in DOMAIN m[i].svcs }
-                    : i \in DOMAIN m }
-
-----------------------------------------------------------------------------
-\* the harness's tester: same program in every run
-SameHistory(A, B) ==
-  /\ Len(A) = Len(B)
-  /\ \A i \in DOMAIN A :
-       /\ A[i].k = B[i].k
-       /\ IF A[i].k = "lit" THEN A[i].q = B[i].q
-          ELSE Len(A[i].q) >= 2 /\ Len(B[i].q) >= 2 /\ SubSeq(A[i].q, 1, 2) = SubSeq(B[i].q, 1, 2)
-
-RECURSIVE KeysDerived(_, _, _)
-\* adaptive steps carry key = latest seed actually received ("key") or that seed plus one byte ("bad")
-KeysDerived(A, i, last) ==
-  IF i > Len(A) THEN TRUE
-  ELSE /\ CASE A[i].k = "key" -> KeyOf(A[i].q) = last
-            [] A[i].k = "bad" -> KeyOf(A[i].q) = last \o <<90>>
-            [] OTHER -> TRUE
-       /\ KeysDerived(A, i + 1, IF IsSeedReply(A[i]) THEN SeedOf(A[i]) ELSE last)
+\* "identical session/service/sub-function model": compared as sets (the order of a dump is not part of the model)
+Canon(m) == UNION { { <<m[j].s, 0, FALSE, {}>> }
+                    \cup { <<m[j].s, m[j].svcs[x].id, m[j].svcs[x].hasSf, Range(m[j].svcs[x].sf)>> : x \in DOMAIN m[j].svcs }
+                    : j \in DOMAIN m }
 
 ----------------------------------------------------------------------------
 PartA(c) ==
   LET R == c.runs
-      ok == { k \in DOMAIN R : R[k].setup = "ok" }
-      wf == [k \in ok |-> WFVerdict(Abstract(R[k].m), Range(c.mandS), Range(c.mandV))]
-      bad == { k \in ok : wf[k] # "ok" }
-  IN IF ok = {} THEN [v |-> "ok", run |-> 0, u |-> 1]     \* no ECU was built: nothing offered
+      ok == { r \in DOMAIN R : R[r].setup = "ok" }
+      wf == [r \in ok |-> WFVerdict(Abstract(R[r].m), Range(c.mandS), Range(c.mandV))]
+      bad == { r \in ok : wf[r] # "ok" }
+  IN IF ok = {} THEN [v |-> "ok", run |-> 0, u |-> 1]     \* no ECU was built: nothing is offered
      ELSE IF bad = {} THEN [v |-> "ok", run |-> 0, u |-> 0]
      ELSE [v |-> wf[MinOf(bad)], run |-> MinOf(bad), u |-> 0]
 
-PartB(c) ==
+\* what can be decided before stepping through the histories
+PreB(c) ==
   LET R == c.runs
       n == Len(R)
-      res(v, k, at, u) == [v |-> v, run |-> k, at |-> at, u |-> u]
-  IN IF Cardinality({ R[k].setup : k \in 1..n }) > 1 THEN res("M0/setup-outcome-differs", 0, 0, 0)
-     ELSE IF R[1].setup # "ok" THEN res("ok", 0, 0, 1)
-     ELSE LET mdiff == { k \in 2..n : Canon(R[k].m) # Canon(R[1].m) } IN
-          IF mdiff # {} THEN res("M1/model-differs", MinOf(mdiff), 0, 0)
-          ELSE LET hdiff == { k \in 2..n : ~SameHistory(R[1].tr, R[k].tr) }
-                   kbad  == { k \in 1..n : ~KeysDerived(R[k].tr, 1, <<>>) } IN
-          IF hdiff # {} THEN res("H0/harness-histories-differ", MinOf(hdiff), 0, 0)
-          ELSE IF kbad # {} THEN res("H1/harness-key-not-derived-from-seed", MinOf(kbad), 0, 0)
-          ELSE LET d == [k \in 2..n |-> Determinism(R[1].tr, R[k].tr)]
-                   dbad == { k \in 2..n : d[k].v # "ok" }
-                   RECURSIVE SumU(_)
-                   SumU(k) == IF k > n THEN 0 ELSE d[k].u + SumU(k + 1)
-               IN IF dbad = {} THEN res("ok", 0, 0, SumU(2))
-                  ELSE res(d[MinOf(dbad)].v, MinOf(dbad), d[MinOf(dbad)].at, 0)
+      res(v, r, uu) == [v |-> v, run |-> r, u |-> uu, more |-> FALSE]
+  IN IF Cardinality({ R[r].setup : r \in 1..n }) > 1 THEN res("M0/setup-outcome-differs", 0, 0)
+     ELSE IF R[1].setup # "ok" THEN res("ok", 0, 1)
+     ELSE LET mdiff == { r \in 2..n : Canon(R[r].m) # Canon(R[1].m) }
+              ldiff == { r \in 2..n : Len(R[r].tr) # Len(R[1].tr) } IN
+          IF mdiff # {} THEN res("M1/model-differs", MinOf(mdiff), 0)
+          ELSE IF ldiff # {} THEN res("H0/harness-histories-differ", MinOf(ldiff), 0)
+          ELSE IF n < 2 \/ Len(R[1].tr) = 0 THEN res("ok", 0, 0)
+          ELSE [v |-> "ok", run |-> 0, u |-> 0, more |-> TRUE]
 
-TInit == cid \in 1..Len(C) /\ done = FALSE
-TNext == /\ ~done
-         /\ done' = TRUE
-         /\ cid' = cid
-         /\ LET a == PartA(C[cid]) b == PartB(C[cid]) IN
-            /\ PrintT(<<"V", C[cid].id, "a", a.v, a.run, 0, a.u>>)
-            /\ PrintT(<<"V", C[cid].id, "b", b.v, b.run, b.at, b.u>>)
+\* the harness's tester ran the same program in both runs ...
+SameRequest(a, b) ==
+  /\ a.k = b.k
+  /\ IF a.k \in {"lit", "new"} THEN a.q = b.q
+     ELSE Len(a.q) >= 2 /\ Len(b.q) >= 2 /\ SubSeq(a.q, 1, 2) = SubSeq(b.q, 1, 2)
+\* ... and its adaptive steps carry key = latest seed received ("key") or that seed plus one byte ("bad")
+KeyDerived(x, last) ==
+  CASE x.k = "key" -> KeyOf(x.q) = last
+    [] x.k = "bad" -> KeyOf(x.q) = last \o <<90>>
+    [] OTHER -> TRUE
+Shown(last, x) == IF IsSeedReply(x) THEN SeedOf(x) ELSE last
+
+Emit(part, v, r, at, uu) == PrintT(<<"V", C[cid].id, part, v, r, at, uu>>)
+
+TInit == /\ cid \in 1..Len(C) /\ st = "start" /\ k = 2 /\ i = 1
+         /\ sa = NoSeed /\ sb = NoSeed /\ la = <<>> /\ lb = <<>> /\ u = 0
+
+Start ==
+  /\ st = "start"
+  /\ LET a == PartA(C[cid])  b == PreB(C[cid]) IN
+     /\ Emit("a", a.v, a.run, 0, a.u)
+     /\ IF b.more THEN st' = "run"
+        ELSE st' = "done" /\ Emit("b", b.v, b.run, 0, b.u)
+  /\ UNCHANGED <<cid, k, i, sa, sb, la, lb, u>>
+
+\* move on to the next run (or finish) with uu unspecified steps counted so far
+NextRun(uu) ==
+  IF k < Len(C[cid].runs)
+  THEN /\ k' = k + 1 /\ i' = 1 /\ sa' = NoSeed /\ sb' = NoSeed /\ la' = <<>> /\ lb' = <<>> /\ u' = uu
+       /\ UNCHANGED st
+  ELSE /\ st' = "done" /\ Emit("b", "ok", 0, 0, uu)
+       /\ UNCHANGED <<k, i, sa, sb, la, lb, u>>
+
+Stop(v) == /\ st' = "done" /\ Emit("b", v, k, i, 0)
+           /\ UNCHANGED <<k, i, sa, sb, la, lb, u>>
+
+Step ==
+  /\ st = "run"
+  /\ LET A == C[cid].runs[1].tr
+         a == A[i]
+         b == C[cid].runs[k].tr[i]
+         cls == IF a.k = "new"
+                THEN (IF SameAnswer(a, b) THEN "ok" ELSE "M1/model-differs")     \* model of a restarted ECU
+                ELSE StepClass(a, b, sa, sb)
+         \* a fresh ECU instance starts with fresh bookkeeping
+         sa0 == IF a.k = "new" THEN NoSeed ELSE sa
+         sb0 == IF a.k = "new" THEN NoSeed ELSE sb
+         la0 == IF a.k = "new" THEN <<>> ELSE la
+         lb0 == IF a.k = "new" THEN <<>> ELSE lb
+         restarts == { j \in (i + 1)..Len(A) : A[j].k = "new" }
+     IN
+     IF ~SameRequest(a, b) THEN Stop("H0/harness-histories-differ")
+     ELSE IF ~(KeyDerived(a, la0) /\ KeyDerived(b, lb0)) THEN Stop("H1/harness-key-not-derived-from-seed")
+     ELSE IF cls \notin {"ok", "unspec", "taint"} THEN Stop(cls)
+     ELSE IF cls = "taint"
+     THEN IF restarts = {} THEN NextRun(u + (Len(A) - i + 1))
+          ELSE /\ i' = MinOf(restarts) /\ u' = u + (MinOf(restarts) - i)
+               /\ UNCHANGED <<st, k, sa, sb, la, lb>>
+     ELSE LET uu == IF cls = "unspec" THEN u + 1 ELSE u IN
+          IF i = Len(A) THEN NextRun(uu)
+          ELSE /\ i' = i + 1 /\ u' = uu
+               /\ sa' = AfterStep(sa0, a) /\ sb' = AfterStep(sb0, b)
+               /\ la' = Shown(la0, a) /\ lb' = Shown(lb0, b)
+               /\ UNCHANGED <<st, k>>
+  /\ UNCHANGED cid
+
+TNext == Start \/ Step
 TSpec == TInit /\ [][TNext]_tvars
 =============================================================================
